@@ -41,7 +41,7 @@ def run(N, mutate=False):
     new, cons = apply_delete(db2, stmts[0], "post2")
     spec = []
     for i in range(N):
-        bad = z3.Or([z3.And(nodes.present[j], nodes.val[j]["job_id"] == nodes.val[i]["job_id"], z3.Not(nodes.null[j]["parent_event_id"]),
+        bad = z3.Or([z3.And(nodes.present[j], nodes.val[j]["job_id"] == nodes.val[i]["job_id"], z3.Not(nodes.null[j]["parent_event_id"]) if not mutate else z3.BoolVal(True),
                      z3.Not(z3.Or([z3.And(nodes.present[k], nodes.val[k]["event_id"] == nodes.val[j]["parent_event_id"]) for k in range(N)]))) for j in range(N)])
         spec.append(new.present[i] == z3.And(nodes.present[i], z3.Not(bad)))
     s = z3.Solver(); s.add(pre + cons + [z3.Not(z3.And(spec))])
